@@ -70,51 +70,48 @@ func historyFamilies(thorough bool) []family {
 		f.pres = histories(f.top.RF, maxLen)
 		fs = append(fs, f)
 	}
-	depth3 := 1 // history length for the RF 3 one-series families
+	depth := 1 // history length
 	if thorough {
-		depth3 = 2
+		depth = 2
 	}
-	// H-A. one series, RF 1..4, handler outside the ring / is replica 0.
+	// H-A. one series, RF 1..4, handler outside the ring / is replica 0 (RF 3: histories of length 2 in both tiers).
 	for rf := 1; rf <= 4; rf++ {
 		for _, local := range []int{-1, 0} {
-			alpha, depth := full, 1
+			alpha, d := full, depth
 			if rf == 3 {
-				depth = depth3
+				d = 2
 			}
 			if rf == 4 && !thorough {
-				alpha = two
-				if local == 0 {
-					continue
-				}
+				alpha = three
 			}
-			add(family{top: rig.Topology{RF: rf, Nodes: rf, Local: local}, homes: []int{0}, alphabet: alpha}, depth)
+			add(family{top: rig.Topology{RF: rf, Nodes: rf, Local: local}, homes: []int{0}, alphabet: alpha}, d)
 		}
 	}
 	// H-B. the observed request is split by the tenant label itself.
 	for _, local := range []int{-1, 0} {
-		add(family{top: rig.Topology{RF: 3, Nodes: 3, Local: local}, homes: []int{0}, alphabet: full, lastLabel: true}, 1)
+		add(family{top: rig.Topology{RF: 3, Nodes: 3, Local: local}, homes: []int{0}, alphabet: full, lastLabel: true}, depth)
 	}
-	add(family{top: rig.Topology{RF: 2, Nodes: 3, Local: -1}, homes: []int{0, 1}, alphabet: two, lastLabel: true}, 1)
+	add(family{top: rig.Topology{RF: 2, Nodes: 3, Local: -1}, homes: []int{0, 1}, alphabet: two, lastLabel: true}, depth)
 	// H-C. several series: shared destinations, overlapping replica sets, more nodes than replicas, handler a later replica.
-	add(family{top: rig.Topology{RF: 3, Nodes: 3, Local: -1}, homes: []int{0, 0}, alphabet: full}, 1)
-	add(family{top: rig.Topology{RF: 3, Nodes: 3, Local: 0}, homes: []int{0, 0}, grpc: true, alphabet: full}, 1)
-	add(family{top: rig.Topology{RF: 3, Nodes: 3, Local: 1}, homes: []int{0}, alphabet: full}, 1)
-	add(family{top: rig.Topology{RF: 2, Nodes: 4, Local: 3}, homes: []int{2}, alphabet: full}, 1)
+	add(family{top: rig.Topology{RF: 3, Nodes: 3, Local: -1}, homes: []int{0, 0}, alphabet: full}, depth)
+	add(family{top: rig.Topology{RF: 3, Nodes: 3, Local: 0}, homes: []int{0, 0}, grpc: true, alphabet: full}, depth)
+	add(family{top: rig.Topology{RF: 3, Nodes: 3, Local: 1}, homes: []int{0}, alphabet: full}, depth)
+	add(family{top: rig.Topology{RF: 2, Nodes: 4, Local: 3}, homes: []int{2}, alphabet: full}, depth)
 	if thorough {
-		add(family{top: rig.Topology{RF: 2, Nodes: 3, Local: -1}, homes: []int{0, 1}, alphabet: full}, 1)
-		add(family{top: rig.Topology{RF: 2, Nodes: 3, Local: 0}, homes: []int{0, 1}, alphabet: full}, 1)
-		add(family{top: rig.Topology{RF: 3, Nodes: 4, Local: -1}, homes: []int{0, 0, 0}, alphabet: full}, 1)
+		add(family{top: rig.Topology{RF: 2, Nodes: 3, Local: -1}, homes: []int{0, 1}, alphabet: full}, depth)
+		add(family{top: rig.Topology{RF: 2, Nodes: 3, Local: 0}, homes: []int{0, 1}, alphabet: full}, depth)
+		add(family{top: rig.Topology{RF: 3, Nodes: 4, Local: -1}, homes: []int{0, 0, 0}, alphabet: full}, depth)
 		add(family{top: rig.Topology{RF: 5, Nodes: 5, Local: -1}, homes: []int{0}, alphabet: two}, 1)
 	} else {
-		add(family{top: rig.Topology{RF: 2, Nodes: 3, Local: -1}, homes: []int{0, 1}, alphabet: three}, 1)
+		add(family{top: rig.Topology{RF: 2, Nodes: 3, Local: -1}, homes: []int{0, 1}, alphabet: three}, depth)
 	}
 	// H-D. already replicated observed request (replica header 1..RF+1), both entry points.
 	for rf := 2; rf <= 3; rf++ {
 		for rep := 1; rep <= rf+1; rep++ {
 			for _, g := range []bool{false, true} {
 				for _, local := range []int{-1, 0} {
-					add(family{top: rig.Topology{RF: rf, Nodes: rf, Local: local}, homes: []int{0}, rep: rep, grpc: g, alphabet: full}, 1)
-					add(family{top: rig.Topology{RF: rf, Nodes: rf, Local: local}, homes: []int{0, 1}, rep: rep, grpc: g, alphabet: full}, 1)
+					add(family{top: rig.Topology{RF: rf, Nodes: rf, Local: local}, homes: []int{0}, rep: rep, grpc: g, alphabet: full}, depth)
+					add(family{top: rig.Topology{RF: rf, Nodes: rf, Local: local}, homes: []int{0, 1}, rep: rep, grpc: g, alphabet: full}, depth)
 				}
 			}
 		}
@@ -267,7 +264,7 @@ func TestCheck(t *testing.T) {
 		"additionally (split-tenant label configured) the smaller shapes (1 series RF 1..4, 2 series on shared / overlapping replica sets, handler as a later replica, " +
 		"observed request split by the tenant label itself, already-replicated requests) are run as the last request of a history on the same handler: preceding request in " +
 		"{none, stored everywhere, conflict everywhere, rejected in distribution by an invalid split-tenant label value on its last series, rejected by Hashring.GetN " +
-		"for a tenant whose hashring has RF-1 nodes} (thorough: histories of length 2 for RF 3); " +
+		"for a tenant whose hashring has RF-1 nodes} (histories of length 2 for 1 series RF 3; thorough: for every shape); " +
 		"non-trivial = distinct case with at least one ok and one failed destination (history cases: and every predecessor ended as intended)")
 	r.Assume("write quorum = floor(RF/2)+1, and 1 for RF 2 (the documented exception in Handler.writeQuorum); computed by the check, not read from the handler",
 		"the hashring placement is taken as given (hashmod ring; C18-C21 cover placement)",
